@@ -811,3 +811,11 @@ RS.rules.append(Rule('C09.R11', 'K-RES', 'a redirection whose operand contains a
                      'subshell cannot be started: both ends of the pipe made for the substitution are closed on the start-failure exit '
                      '(C08.R11 / C14.R1)', _c08_cmdsubst_pipe_closed_on_every_exit))
 RS.explanation += ' The pipe of a command substitution inside a redirection operand is closed on the start-failure exit too (R11 = C08.R11).'
+
+
+# --- wave 5 (seed C09-s10): a pipe() that fails inside a redirection (command substitution in the operand, EMFILE) leaves nothing open
+from rules.C19 import r10 as _c19_pipe_allocates_nothing_on_failure
+RS.rules.append(Rule('C09.R12', 'K-RES', 'a redirection that fails because pipe() failed leaves no descriptor behind: the simulated pipe() '
+                     'closes the reading end again when the writing end cannot be allocated (EMFILE), as a real pipe() allocates both or '
+                     'none (C19.R10)', _c19_pipe_allocates_nothing_on_failure))
+RS.explanation += ' A failing pipe() leaves no descriptor behind (R12 = C19.R10).'
